@@ -152,7 +152,9 @@ DoTake(r, h, b, bs, op) ==
         reexec == ~isprep /\ q.natt > 0
         \* C04: a request not positively idempotent is re-sent only after safe outcomes
         c04ok == ~(reexec /\ ~q.idem /\ q.unsafe)
-        why == IF ~c04ok THEN "C04" ELSE "C05"
+        \* C08: after a successful re-prepare the request is re-executed on that host
+        afterPrep == q.mode = "prep" /\ "same" \in q.must /\ q.ph = "exec"
+        why == IF ~c04ok THEN "C04" ELSE IF afterPrep THEN "C08" ELSE "C05"
         \* C02: the stream id that reaches the backend must not be one that is still in use on that connection
         streamFree == ~(\E x \in out : x.b = b /\ x.bs = bs)
     IN
@@ -182,6 +184,7 @@ DoTake(r, h, b, bs, op) ==
                    ELSE IF ~c04ok THEN "non-idempotent request re-sent after an outcome that may have applied it"
                    ELSE IF q.nrep > 0 THEN "request sent to a backend after the client was answered (not prescribed by the retry policy)"
                    ELSE IF isprep THEN "unexpected re-prepare"
+                   ELSE IF afterPrep THEN "request not re-executed on the host that was just re-prepared for it"
                    ELSE "attempt not prescribed by the retry policy (host/order/retry)", r)
 
 (* Environment: the backend answers the attempt (r, b, bs) with outcome o.         *)
@@ -325,12 +328,14 @@ DoReply(r, c, s, kind, tok, node) ==
                                          !.lastkind = IF q.nrep = 0 THEN kind ELSE q.lastkind]]
     /\ bad' = Flag(own /\ first /\ allowed /\ content,
                    IF ~own THEN "C02" ELSE IF ~first THEN "C01" ELSE IF ~content THEN "C02"
-                   ELSE IF kind = "unprepared" /\ q.cached THEN "C08" ELSE IF ~known THEN "C02" ELSE "C05",
+                   ELSE IF kind = "unprepared" /\ q.cached THEN "C08" ELSE IF ~known THEN "C02"
+                   ELSE IF q.mode = "prep" /\ "same" \in q.must THEN "C08" ELSE "C05",
                    IF ~own THEN "response delivered on a stream/client that did not send the request"
                    ELSE IF ~first THEN "second response for one request"
                    ELSE IF ~content THEN "response carries another request's answer"
                    ELSE IF kind = "unprepared" /\ q.cached THEN "UNPREPARED returned although the statement is cached"
                    ELSE IF ~known THEN "response is not the answer to any attempt of this request"
+                   ELSE IF q.mode = "prep" /\ "same" \in q.must THEN "request answered without being re-executed after its statement was re-prepared"
                    ELSE "reply not prescribed by the retry policy", r)
     /\ UNCHANGED <<conn, out>>
 
